@@ -450,6 +450,14 @@ def main():
                 if not same:
                     nest_bad += 1; ndiff += 1
                     if first_diff is None or len(el) < len(first_diff[0]): first_diff = (el, "geometric::EST: implementation '%s' EstModel (tree, report, weights) %r" % (a[:300], m))
+            # EstWeights.est_weights (over R): the weight of motion j is 1 / (1 + other motions within the radius maxDistance / 3)
+            pts_ = [(fl(t[0]), fl(t[1])) for t in nodes]; rad_ = float(el.split()[1]) / 3.0
+            for j_, wj in enumerate(iw):
+                cnt_ = sum(1 for k_ in range(len(pts_)) if k_ != j_ and edist(pts_[k_], pts_[j_]) <= rad_)
+                if abs(fl("%016x" % wj) - 1.0 / (1 + cnt_)) > 1e-12:
+                    nest_bad += 1; ndiff += 1
+                    if first_diff is None or len(el) < len(first_diff[0]): first_diff = (el, "geometric::EST: the PDF weight of motion %d is %r, the theorem EstWeights.est_weights gives 1 / (1 + %d neighbours)" % (j_, fl("%016x" % wj), cnt_))
+                    break
             w = el.split(); nw = int(w[6]); walls = [(float(w[7 + 3 * j]), float(w[8 + 3 * j]), float(w[9 + 3 * j])) for j in range(nw)]
             o = 7 + 3 * nw; ns = int(w[o + 1]); starts = [(float(w[o + 2 + 2 * j]), float(w[o + 3 + 2 * j])) for j in range(ns)]
             o = o + 2 + 2 * ns; goal = (float(w[o + 1]), float(w[o + 2])); thr = float(w[3])
